@@ -71,8 +71,10 @@ func main() {
 	maxFail := flag.Int("maxfail", 2, "stop after this many failing runs")
 	keys := flag.Bool("emit-keys", false, "print the distinct-case keys (for merging across workers)")
 	selfcheck := flag.Bool("selfcheck-inputs", false, "materialise every input family with extreme parameters")
+	samples := flag.String("samples", os.Getenv("VERIF_SAMPLES"), "directory of real sample files (the repository's testdata)")
 	reference := flag.Bool("reference", false, "serve baseline answers from a tree that is never extended (child of a worker)")
 	flag.Parse()
+	inputs.SampleDir = *samples
 	if *selfcheck {
 		// every family with extreme parameters must materialise without panicking
 		n := 0
